@@ -21,6 +21,13 @@ func r16_5(c *Ctx, r *Report) {
 		}
 		sort.Strings(bad)
 		r.check(len(bad) == 0 && n > 0, rule, construct, c.fnPos(fn), fmt.Sprintf("%d assignments; deviations: %v", n, headList(dedupe(bad), 3)))
+		if c.starTableOK == nil {
+			c.starTableOK = map[*ssa.Function]bool{}
+		}
+		if _, seen := c.starTableOK[fn]; !seen {
+			c.starTableOK[fn] = true
+		}
+		c.starTableOK[fn] = c.starTableOK[fn] && len(bad) == 0 && n > 0
 	}
 	star := func(ev *evaluator, res []interface{}, outcome string) string {
 		if outcome == "return" && len(res) == 1 {
